@@ -1,5 +1,6 @@
 // oracles.h - reference implementations independent of the code under test.
 #pragma once
+#include <algorithm>
 #include <cmath>
 #include <cstdint>
 #include <cstring>
@@ -239,5 +240,223 @@ static inline bool same_d (double a, double b)
 template <class T> static inline bool same (T a, T b) { return a == b; }
 template <> inline bool same<float> (float a, float b) { return same_f (a, b); }
 template <> inline bool same<double> (double a, double b) { return same_d (a, b); }
+
+} // namespace orc
+
+// ---- quad math (libquadmath; prototypes declared here so clang needs no quadmath.h) ----
+extern "C" {
+__float128 sinq (__float128);
+__float128 cosq (__float128);
+__float128 tanq (__float128);
+__float128 sqrtq (__float128);
+__float128 atan2q (__float128, __float128);
+__float128 acosq (__float128);
+__float128 asinq (__float128);
+__float128 cbrtq (__float128);
+__float128 fabsq (__float128);
+__float128 expq (__float128);
+__float128 logq (__float128);
+__float128 powq (__float128, __float128);
+__float128 fmodq (__float128, __float128);
+__float128 floorq (__float128);
+}
+
+namespace orc {
+
+static const quad QPI = (quad) 3.14159265358979323846264338327950288419716939937510L + (quad) (-5.01655761266833202355732708033e-20L);
+
+// ---- small dense linear algebra in quad ---------------------------------------
+template <int N> struct QM
+{
+    quad a[N][N];
+    QM ()
+    {
+        for (int i = 0; i < N; ++i)
+            for (int j = 0; j < N; ++j)
+                a[i][j] = i == j ? 1 : 0;
+    }
+    template <class M> static QM from (const M& m)
+    {
+        QM r;
+        for (int i = 0; i < N; ++i)
+            for (int j = 0; j < N; ++j)
+                r.a[i][j] = (quad) m[i][j];
+        return r;
+    }
+    quad*       operator[] (int i) { return a[i]; }
+    const quad* operator[] (int i) const { return a[i]; }
+};
+template <int N> static inline QM<N> operator* (const QM<N>& x, const QM<N>& y)
+{
+    QM<N> r;
+    for (int i = 0; i < N; ++i)
+        for (int j = 0; j < N; ++j)
+        {
+            quad s = 0;
+            for (int k = 0; k < N; ++k)
+                s += x.a[i][k] * y.a[k][j];
+            r.a[i][j] = s;
+        }
+    return r;
+}
+// |x|*|y| (sum of absolute terms of each product entry)
+template <int N> static inline QM<N> absmul (const QM<N>& x, const QM<N>& y)
+{
+    QM<N> r;
+    for (int i = 0; i < N; ++i)
+        for (int j = 0; j < N; ++j)
+        {
+            quad s = 0;
+            for (int k = 0; k < N; ++k)
+                s += qabs (x.a[i][k] * y.a[k][j]);
+            r.a[i][j] = s;
+        }
+    return r;
+}
+template <int N> static inline QM<N> transpose (const QM<N>& x)
+{
+    QM<N> r;
+    for (int i = 0; i < N; ++i)
+        for (int j = 0; j < N; ++j)
+            r.a[i][j] = x.a[j][i];
+    return r;
+}
+// determinant by permutation expansion; *abs_sum receives the sum of |permutation products|
+template <int N> static inline quad det (const QM<N>& m, quad* abs_sum = nullptr)
+{
+    int  p[N];
+    for (int i = 0; i < N; ++i)
+        p[i] = i;
+    quad d = 0, as = 0;
+    // Heap-free enumeration via std::next_permutation with sign by inversion count
+    do
+    {
+        int inv = 0;
+        for (int i = 0; i < N; ++i)
+            for (int j = i + 1; j < N; ++j)
+                if (p[i] > p[j]) ++inv;
+        quad t = 1;
+        for (int i = 0; i < N; ++i)
+            t *= m.a[i][p[i]];
+        d += (inv & 1) ? -t : t;
+        as += qabs (t);
+    } while (std::next_permutation (p, p + N));
+    if (abs_sum) *abs_sum = as;
+    return d;
+}
+// inverse by Gauss-Jordan with partial pivoting; returns false if a pivot is exactly zero
+template <int N> static inline bool inverse (const QM<N>& m, QM<N>& out)
+{
+    QM<N> a = m, b;
+    for (int c = 0; c < N; ++c)
+    {
+        int  piv = c;
+        quad best = qabs (a.a[c][c]);
+        for (int r = c + 1; r < N; ++r)
+            if (qabs (a.a[r][c]) > best)
+            {
+                best = qabs (a.a[r][c]);
+                piv  = r;
+            }
+        if (best == 0) return false;
+        if (piv != c)
+            for (int j = 0; j < N; ++j)
+            {
+                std::swap (a.a[c][j], a.a[piv][j]);
+                std::swap (b.a[c][j], b.a[piv][j]);
+            }
+        quad d = a.a[c][c];
+        for (int j = 0; j < N; ++j)
+        {
+            a.a[c][j] /= d;
+            b.a[c][j] /= d;
+        }
+        for (int r = 0; r < N; ++r)
+            if (r != c)
+            {
+                quad f = a.a[r][c];
+                if (f == 0) continue;
+                for (int j = 0; j < N; ++j)
+                {
+                    a.a[r][j] -= f * a.a[c][j];
+                    b.a[r][j] -= f * b.a[c][j];
+                }
+            }
+    }
+    out = b;
+    return true;
+}
+template <int N> static inline quad norm_inf (const QM<N>& m)
+{
+    quad best = 0;
+    for (int i = 0; i < N; ++i)
+    {
+        quad s = 0;
+        for (int j = 0; j < N; ++j)
+            s += qabs (m.a[i][j]);
+        best = qmax (best, s);
+    }
+    return best;
+}
+template <int N> static inline quad max_abs (const QM<N>& m)
+{
+    quad best = 0;
+    for (int i = 0; i < N; ++i)
+        for (int j = 0; j < N; ++j)
+            best = qmax (best, qabs (m.a[i][j]));
+    return best;
+}
+// max |x - y| over entries, x being an Imath-style matrix
+template <int N, class M> static inline quad max_diff (const M& x, const QM<N>& y)
+{
+    quad best = 0;
+    for (int i = 0; i < N; ++i)
+        for (int j = 0; j < N; ++j)
+        {
+            quad d = qabs ((quad) x[i][j] - y.a[i][j]);
+            if (!(d == d)) return (quad) 1e4000L; // NaN -> huge
+            best = qmax (best, d);
+        }
+    return best;
+}
+// rotation about unit axis (x,y,z) by angle (Rodrigues), ROW-vector convention: p' = p * R
+template <int N> static inline QM<N> rodrigues_rowvec (quad x, quad y, quad z, quad ang)
+{
+    quad  l = sqrtq (x * x + y * y + z * z);
+    x /= l;
+    y /= l;
+    z /= l;
+    quad  c = cosq (ang), s = sinq (ang), t = 1 - c;
+    QM<N> r;
+    // column-vector rotation matrix C; row-vector matrix is its transpose
+    quad C[3][3] = { { t * x * x + c, t * x * y - s * z, t * x * z + s * y }, { t * x * y + s * z, t * y * y + c, t * y * z - s * x }, { t * x * z - s * y, t * y * z + s * x, t * z * z + c } };
+    for (int i = 0; i < 3; ++i)
+        for (int j = 0; j < 3; ++j)
+            r.a[i][j] = C[j][i];
+    return r;
+}
+
+template <class M> static inline std::string mstr (const M& m, int N)
+{
+    std::ostringstream o;
+    o << std::setprecision (17) << "[";
+    for (int i = 0; i < N; ++i)
+    {
+        o << (i ? " | " : "");
+        for (int j = 0; j < N; ++j)
+            o << (j ? " " : "") << (double) m[i][j];
+    }
+    o << "]";
+    return o.str ();
+}
+template <class V> static inline std::string vstr (const V& v, int N)
+{
+    std::ostringstream o;
+    o << std::setprecision (17) << "(";
+    for (int i = 0; i < N; ++i)
+        o << (i ? " " : "") << (double) v[i];
+    o << ")";
+    return o.str ();
+}
 
 } // namespace orc
